@@ -16,7 +16,7 @@ EXPLANATION = (
     "verbose=True/False give identical results and that str(result) does not raise. Splitting: for every composition "
     "k1+...+km = n, consecutive optimize(max_iter=k_j, tol=0) calls reproduce the pose terms and chi^2 reports of one call."
 )
-BOUNDS = {"quick": "max_iter 1..4, all chi^2 sequences, tol symbolic; all compositions of n<=4", "thorough": "max_iter 1..6; all compositions of n<=5"}
+BOUNDS = {"quick": "max_iter 1..4, all chi^2 sequences, tol symbolic; all compositions of n<=4", "thorough": "max_iter 1..7; all compositions of n<=6"}
 OUTSIDE = "durations (the clock stub is only monotone); max_iter beyond the bound (each loop iteration is the same code; the bound limits the bookkeeping paths)"
 ASSUMPTIONS = ["chi^2 >= 0 (positive semi-definite information)", "spsolve stub: an arbitrary but deterministic function of its arguments (same matrix and right-hand side terms => same result, different terms => an unrelated vector)", "time stub: strictly increasing instants"]
 
@@ -199,8 +199,8 @@ def _split(n, parts):
 
 
 def cases(tier):
-    mi = 4 if tier == "quick" else 6
-    ns = 4 if tier == "quick" else 5
+    mi = 4 if tier == "quick" else 7
+    ns = 4 if tier == "quick" else 6
     out = [Case("report-maxiter%d" % m, _report(m), timeout=20, old_timeout=30, validate=3 if tier == "quick" else 8, feas_timeout_ms=3000) for m in range(1, mi + 1)]
     for n in range(1, ns + 1):
         for parts in _compositions(n):
